@@ -12,8 +12,8 @@
              'Go garbage collection of detached nodes is outside the model (a detached subtree is '
              'unreachable from the root)',
              'retention outside the node tree (reader-internal buffers) is not in the model: it is checked on the implementation only, '
-             'by a live-heap oracle (runtime.GC + MemStats.HeapAlloc, minimum of three samples, every 1/16 of a 6*10^4 (quick) / '
-             '3*10^5 (thorough) record run after a warm-up; last third vs first third, slack 1 MB / 2 MB; observed noise on the '
+             'by a live-heap oracle (runtime.GC + MemStats.HeapAlloc, minimum of three samples, every 1/16 of a 4*10^4 (quick) / '
+             '3*10^5 (thorough) record run after a warm-up; last third vs first third, slack 512 KB / 2 MB; observed noise on the '
              'unchanged tree: under 10 KB)'],
  'assumptions': ['no_separator_text (XML): no character data between the records (F7 is the known finding '
                  'outside this guard)',
